@@ -186,6 +186,20 @@ def newService (cfg : Cfg) (exts : List Ext) : Option NewErr :=
   | some .cycle => some .cycle
   | none => if extMissing exts then some .extMissing else if !(extSortable exts) then some .extCycle else none
 
+/-- `service.New` when a component factory may fail: the factories are called inside `graph.Build` (`initGraph`), i.e.
+before the extensions are created and ordered -/
+inductive NewErrW
+  | new (e : NewErr)
+  | create
+deriving DecidableEq, Repr
+
+def newServiceWith (cfg : Cfg) (exts : List Ext) (failCreate : Node → Bool) : Option NewErrW :=
+  match buildWith cfg failCreate with
+  | some (.build .connector) => some (.new .connector)
+  | some (.build .cycle) => some (.new .cycle)
+  | some .create => some .create
+  | none => if extMissing exts then some (.new .extMissing) else if !(extSortable exts) then some (.new .extCycle) else none
+
 /-- `otelcol/collector.go setupConfigurationComponents` + shutdown: `service.New`; when it fails the error is
 returned and neither `Start` nor `Shutdown` of that service is ever called; otherwise `run` -/
 def lifetime (sys : Sys) (failS failT : Comp → Bool) : Outcome :=
